@@ -5,7 +5,7 @@ import ast
 from sa.callgraph import STRONG_KINDS
 from sa.dataflow import ReachingDefs, depends_on
 from sa.dom import view
-from sa.model import AnalysisError, loc, norm, walk_no_nested
+from sa.model import AnalysisError, call_name, loc, norm, walk_no_nested
 from sa.null import check_nullable, named_sources
 from sa.stack import check_balance, PUSH
 
@@ -85,6 +85,43 @@ def run(ctx):
     ctx.check(bool(adj), "R7.2", validate.qualname, "row adjustment", loc(validate, validate.node),
               "validate no longer computes a row adjustment that depends on has_column_names",
               desc="validate computes the 1-based + header adjustment")
+
+    # ---- R7.4: issues labelled by position in the table are computed on the caller's table, not on the sorted copy
+    ctx.rule("R7.4", "column-structure validation runs on the table as given (before any re-ordering of rows)")
+    vv = view(ctx, validate)
+    pdata = validate.params()[1] if len(validate.params()) > 1 else None
+    cs_calls = [(n, c) for (n, c) in vv.calls(lambda c: call_name(c) == "_validate_column_structure")]
+    ctx.check(bool(cs_calls), "R7.4", validate.qualname, "call of _validate_column_structure", loc(validate, validate.node),
+              "validate no longer runs the column-structure checks", desc="validate runs _validate_column_structure")
+    for n, c in cs_calls:
+        arg = c.args[0] if c.args else None
+        ok = isinstance(arg, ast.Name) and arg.id == pdata
+        if ok:
+            defs = rd.at(c, arg.id) or []
+            ok = all(d.kind == "param" for d in defs)
+        ctx.check(ok, "R7.4", validate.qualname, c, loc(validate, c),
+                  "the column-structure checks receive a table that may already be the onset-sorted copy: their row labels are "
+                  "positions in the sorted copy, not file rows", desc="_validate_column_structure sees the caller's table")
+    # ---- R7.5: rows are mapped back to file rows through original_index everywhere in the onset pass
+    ctx.rule("R7.5", "the onset pass identifies file rows by original_index (skip set membership and row labels)")
+    roc = cls.methods.get("_run_onset_checks")
+    if roc is None:
+        raise AnalysisError("anchor SpreadsheetValidator._run_onset_checks vanished")
+    n_map = 0
+    for x in walk_no_nested(roc.node):
+        if isinstance(x, ast.Compare) and any(isinstance(o, (ast.In, ast.NotIn)) for o in x.ops) and \
+                "invalid_original_rows" in norm(x.comparators[0]):
+            n_map += 1
+            ctx.check(isinstance(x.left, ast.Attribute) and x.left.attr == "original_index", "R7.5", roc.qualname, x, loc(roc, x),
+                      "membership in the set of file rows that already failed is tested with `%s`, which is not the row's "
+                      "original_index: after sorting / Delay splitting the wrong time point is skipped" % norm(x.left),
+                      desc="failed-row skip uses original_index")
+    for call in row_context_pushes(prog, roc):
+        n_map += 1
+        ctx.check(any(isinstance(y, ast.Attribute) and y.attr == "original_index" for y in ast.walk(call.args[1])), "R7.5",
+                  roc.qualname, call, loc(roc, call), "the row label pushed in the onset pass does not derive from original_index",
+                  desc="onset-pass row label derives from original_index")
+    ctx.floor("R7.5", "file-row mappings in the onset pass", n_map, 2)
 
     # ---- R7.3
     closure = cg.reachable([validate], STRONG_KINDS)
